@@ -141,10 +141,10 @@ def encoding_chain(ctx: Ctx) -> None:
     f = p.func(OWDE)
     cfg = ctx.cfg(f)
     loc = locals_of(f)
-    loops = [lp for lp in for_loops(f) if isinstance(lp.iter, ast.Name) and lp.iter.id == "try_encodings" and isinstance(lp.target, ast.Name)]
-    lp = one(loops, f"'for encoding in try_encodings' loop in {OWDE}")
-    ctx.expect("R-FWD", f, "the encodings are tried in the caller's order", loc.only_param("try_encodings"), "iterates the parameter itself",
-               "try_encodings is rebound before the loop", node=lp)
+    loops = [lp for lp in for_loops(f) if any(isinstance(n, ast.Name) and n.id == "try_encodings" for n in ast.walk(lp.iter)) and isinstance(lp.target, ast.Name)]
+    lp = one(loops, f"loop over try_encodings in {OWDE}")
+    ctx.expect("R-FWD", f, "the encodings are tried in the caller's order", loc.only_param("try_encodings") and isinstance(lp.iter, ast.Name), "iterates the parameter itself",
+               f"the loop iterates {src(lp.iter)}: not the caller's list in the caller's order", node=lp)
     ev_ = lp.target.id
     opens = [c for c in calls(f) if is_open_call(ctx, f, c) and in_body(lp, c)]
     oc = one(opens, f"filesystem.open call inside the loop of {OWDE}")
